@@ -4,7 +4,7 @@
    hand-shake.  Real thread interleavings are outside the model: "completes" is a statement about
    iterations of a live worker / the flush thread (fairness is the premise, fuel its measure). *)
 From Coq Require Import NArith List Bool Arith Lia.
-From LV Require Import Model.PoolSM Proofs.PoolSM.
+From LV Require Import Model.PoolSM Proofs.PoolSM Gen.PanicSites.
 Import ListNotations.
 
 (* requests that return VALUES — results or error values of any kind — leave the worker pool, the
@@ -107,6 +107,15 @@ Proof.
   - exact job_panic_sticks.
   - exact stuck_is_forever.
 Qed.
+
+(* the panic-site inventory (translator T7, regenerated from /repo on every run): every unwrap /
+   expect / panic! / assert! / range slice / LIMIT-OFFSET arithmetic in the request-path files is
+   classified - by a rule (lock unwraps fire only after an earlier panic poisoned the lock, see
+   C11_errors_preserve_state and C11_damage_is_permanent; send / recv / join unwraps only when the
+   peer thread is gone), as guarded, as off the request path, or as a recorded finding.  A new
+   construct in those files is Unclassified and breaks this obligation. *)
+Theorem C11_sites_classified : forallb PanicSites.classified PanicSites.sites = true.
+Proof. vm_compute. reflexivity. Qed.
 
 (* non-vacuity: three tasks with 1, 3 and 0 partitions, one worker: 7 iterations answer all *)
 Example C11_example_progress :
